@@ -32,9 +32,11 @@ type sched struct {
 	lockwaits int
 	preemptCS int // switches away from a task that was inside a critical section
 	switches  int
-	seq       []byte // running digest of the (task, site) sequence
-	prefix12  []byte // digest after 12 steps
-	onStep    func() // invariant monitor, runs on the scheduler goroutine while every task is parked
+	seq       []byte                         // running digest of the (task, site) sequence
+	prefix12  []byte                         // digest after 12 steps
+	onStep    func()                         // invariant monitor, runs on the scheduler goroutine while every task is parked
+	onResume  func(t *task)                  // just before a parked task continues from t.site
+	onYield   func(t *task, prev, at string) // the task ran from site prev to site at
 	trace     func(string)
 }
 
@@ -176,6 +178,10 @@ func (s *sched) step(t *task) {
 	s.cur, s.last = t, t
 	s.clock++
 	s.steps++
+	prev := t.site
+	if s.onResume != nil {
+		s.onResume(t)
+	}
 	if !t.started {
 		t.started = true
 		go t.main(s)
@@ -184,6 +190,9 @@ func (s *sched) step(t *task) {
 	}
 	<-s.back
 	s.cur = nil
+	if s.onYield != nil {
+		s.onYield(t, prev, t.site)
+	}
 	if t.waitLock {
 		s.lockwaits++
 	} else if !t.waitRecv {
